@@ -60,6 +60,14 @@ def scalar_node(draw, values=SCALARS):
     return tdoc.sc(draw(values), q=draw(QUOTES))
 
 
+@st.composite
+def scalar_or_timestamp(draw, values=SCALARS, one_in=30):
+    """Mostly a scalar node; now and then a yaml timestamp (a date / a naive or zoned datetime, which json cannot hold: a verbatim node)."""
+    if draw(st.integers(0, one_in - 1)) == 0:
+        return tdoc.ts(draw(st.sampled_from(tdoc.TIMESTAMPS)))
+    return tdoc.sc(draw(values), q=draw(QUOTES))
+
+
 def tree(leaves, keys, max_leaves=10, min_children=0, max_children=4):
     """Recursive AST strategy: nested maps / seqs over the given leaves and key strategy."""
     def extend(children):
